@@ -31,6 +31,12 @@ dict comprehension; reader-keys refutes a **kwargs dict created once before the 
 row-dependent condition (stale values of earlier rows; an unconditional store into a shared dict is accepted); id-opacity
 refutes a predecessor filter `p.id in S` whose S is still being filled by the loop that builds the raws.
 
+Round 5 additions: rows may be written by `writerows(..)` from a comprehension or a private generator (`for t in raws: yield
+ROW`, see _row_generator); custom column discovery may append names to a list guarded by `k not in L` (missing guard ->
+refuted: duplicate columns); header vs row custom lists that differ by a sorted()/reversed() are refuted; order checks where
+`<task>.predecessors` is filled in io/raw.py (_pred_rebuild): elements must come from walking `<raw>.predecessor_ids` in
+order - walking another sequence filtered by membership in the listed ids is refuted (order of that sequence, duplicates merged).
+
 Not decided: the csv module's quoting (trusted stdlib, default dialect only), a hand-rolled date parser with its own year
 pivot (undecided), custom attribute
 names that collide with Task members, tasks whose parent_id is dangling, numeric behaviour of float()/str().
@@ -149,17 +155,62 @@ def _entry_body(ctx, name):
     return res
 
 
+def _row_generator(ctx, f, fx, arg):
+    """the argument of writerows(..): `[ROW for t in RAWS]` / `(ROW for ..)`, or a call of a private generator
+    `def g(.., raws, ..): for t in raws: [locals]; yield ROW`
+    -> synthetic ast.For(target=t, iter=<RAWS expanded in f>) carrying .c13_row = (function of ROW, ROW node, helper bind or None)"""
+    a = arg
+    if isinstance(a, ast.Name) and fx.flow.node_of_expr(a) is not None:
+        a = fx.def_value(a.id, a) or a
+    if isinstance(a, ast.Call) and isinstance(a.func, ast.Name) and a.func.id in ('list', 'iter', 'tuple') and len(a.args) == 1 and not a.keywords:
+        a = a.args[0]
+    if isinstance(a, (ast.ListComp, ast.GeneratorExp)) and len(a.generators) == 1 and not a.generators[0].ifs \
+            and isinstance(a.generators[0].target, ast.Name):
+        g = a.generators[0]
+        lp = ast.For(target=g.target, iter=fx.x(g.iter), body=[], orelse=[])
+        lp.c13_row = (f, a.elt, None)
+        return lp
+    hf = package_helper(ctx, f, a)
+    if hf is None or hf.module is not f.module:
+        return None
+    b = bind_call(a, hf)
+    body = [st for st in hf.node.body if not (isinstance(st, ast.Expr) and isinstance(st.value, ast.Constant))]
+    ylds = [n for n in walk_no_nested(hf.node) if isinstance(n, (ast.Yield, ast.YieldFrom))]
+    if b is None or len(body) != 1 or not isinstance(body[0], ast.For) or not isinstance(body[0].target, ast.Name) or body[0].orelse \
+            or len(ylds) != 1 or not isinstance(ylds[0], ast.Yield) or ylds[0].value is None:
+        return None
+    inner = body[0].body
+    if not (isinstance(inner[-1], ast.Expr) and inner[-1].value is ylds[0]) \
+            or any(not isinstance(st, (ast.Assign, ast.AnnAssign)) for st in inner[:-1]):
+        return None
+    fxh = fx_of(ctx, hf)
+    bind = {p_: (fx.x(x) if fx.flow.node_of_expr(x) is not None else x) for p_, x in b.items()}
+    lp = ast.For(target=body[0].target, iter=subst(fxh.x(body[0].iter), bind), body=[], orelse=[])
+    lp.c13_row = (hf, ylds[0].value, bind)
+    return lp
+
+
 def find_writer(ctx, o):
-    """-> (func, fx, header_call, row_call, row_for) of write_csv or None after recording undecided"""
+    """-> (func, fx, header_call, row_call, row_for) of write_csv or None after recording undecided.
+    row_for is the `for task in raws` loop around the row writerow, or a synthetic loop (see _row_generator) for writerows(..)"""
     f = _entry_body(ctx, 'write_csv')[0]
     fx = fx_of(ctx, f)
     wr = [c for c in walk_no_nested(f.node) if isinstance(c, ast.Call) and isinstance(c.func, ast.Attribute)
           and c.func.attr in ('writerow', 'writerows')]
-    hdr = [c for c in wr if not fx.enclosing_fors(c)]
+    hdr = [c for c in wr if not fx.enclosing_fors(c) and c.func.attr == 'writerow']
+    many = [c for c in wr if not fx.enclosing_fors(c) and c.func.attr == 'writerows']
     rows = [c for c in wr if fx.enclosing_fors(c)]
-    if len(hdr) != 1 or len(rows) != 1 or any(c.func.attr != 'writerow' or len(c.args) != 1 for c in wr):
+    if len(hdr) == 1 and len(many) == 1 and not rows and len(many[0].args) == 1 and len(hdr[0].args) == 1 \
+            and same(hdr[0].func.value, many[0].func.value):
+        lp = _row_generator(ctx, f, fx, many[0].args[0])
+        if lp is None:
+            o.undecided(f, many[0], many[0], "rows are written by writerows(..) from a source the rule does not recognise")
+            return None
+        lp.c13_at = many[0]
+        return f, fx, hdr[0], many[0], lp
+    if len(hdr) != 1 or len(rows) != 1 or many or any(c.func.attr != 'writerow' or len(c.args) != 1 for c in wr):
         o.undecided(f, f.node, 'write_csv writerow calls', f"expected one header writerow outside the row loop and one writerow "
-                                                           f"inside it, found {len(hdr)} / {len(rows)}")
+                                                           f"inside it, found {len(hdr) + len(many)} / {len(rows)}")
         return None
     fors = fx.enclosing_fors(rows[0])
     if len(fors) != 1 or not isinstance(fors[0].target, ast.Name):
@@ -248,14 +299,28 @@ def ob_columns(ctx, o, F):
         o.undecided(f, hcall, hcall, f"header row `{src(h)[:100]}` is not <literal column list> + <custom column list>")
     else:
         _compare_columns(o, f, hcall, hv, 'header row')
-    if fx.cfg.node_containing(hcall) is not None and fx.cfg.node_of(rfor) is not None and \
-            not fx.cfg.dominates(fx.cfg.node_containing(hcall), fx.cfg.node_of(rfor)):
+    rows_at = fx.cfg.node_containing(rfor.c13_at) if hasattr(rfor, 'c13_at') else fx.cfg.node_of(rfor)
+    if fx.cfg.node_containing(hcall) is not None and rows_at is not None and \
+            not fx.cfg.dominates(fx.cfg.node_containing(hcall), rows_at):
         o.refute(f, hcall, 'header after rows', "the header row is not written before the row loop on every path")
     # ---- row literal
-    r = fx.x(rcall.args[0], keep=[rowvar])
+    rowsrc = getattr(rfor, 'c13_row', None)
     rowf = f
-    hf = package_helper(ctx, f, r)
-    if hf is not None and hf.module is f.module:
+    if rowsrc is not None and rowsrc[2] is not None:
+        # writerows(<private generator>(..)): the row literal is the value yielded per task
+        hf = rowsrc[0]
+        built = _split_concat(fx_of(ctx, hf).x(rowsrc[1], keep=[rowvar]))
+        r = None
+        rfixed = subst(built[0], rowsrc[2])
+        rcustom = subst(built[1], rowsrc[2]) if built[1] is not None else None
+        rowf = hf
+        hf = None
+    else:
+        r = fx.x(rowsrc[1] if rowsrc is not None else rcall.args[0], keep=[rowvar])
+        hf = package_helper(ctx, f, r)
+    if rowsrc is not None and rowsrc[2] is not None:
+        pass
+    elif hf is not None and hf.module is f.module:
         # the row is built by a private helper: read the row literal (and the custom cells appended to it) there
         b = bind_call(r, hf)
         taskp = [p_ for p_, a in (b or {}).items() if isinstance(a, ast.Name) and a.id == rowvar]
@@ -357,6 +422,19 @@ def _keys_of_dict(e):
     return None
 
 
+def _key_name(e):
+    """k | f"{k}" | str(k)  ->  'k' (the attribute name itself, as text) else None"""
+    if isinstance(e, ast.Name):
+        return e.id
+    if isinstance(e, ast.JoinedStr) and len(e.values) == 1 and isinstance(e.values[0], ast.FormattedValue) \
+            and isinstance(e.values[0].value, ast.Name) and e.values[0].format_spec is None and e.values[0].conversion in (-1, 115):
+        return e.values[0].value.id
+    if isinstance(e, ast.Call) and isinstance(e.func, ast.Name) and e.func.id == 'str' and len(e.args) == 1 and isinstance(e.args[0], ast.Name) \
+            and not e.keywords:
+        return e.args[0].id
+    return None
+
+
 def _custom_columns(ctx, o, F, f, fx, hcall, rcall, hcustom, rcustom, rfor, rowvar, rowf):
     if hcustom is None and rcustom is None:
         o.refute(f, hcall, 'no custom columns', "neither the header nor the rows carry custom attribute columns")
@@ -370,6 +448,13 @@ def _custom_columns(ctx, o, F, f, fx, hcall, rcall, hcustom, rcustom, rfor, rowv
     g = rcustom.generators[0]
     kv = g.target.id
     hd, rd = _keys_of_dict(hcustom), _keys_of_dict(g.iter)
+    def n_sorted(e):
+        return sum(1 for n in ast.walk(e) if isinstance(n, ast.Call) and isinstance(n.func, ast.Name) and n.func.id in ('sorted', 'reversed'))
+    if not same(hcustom, g.iter) and hd is not None and rd is not None and same(hd, rd) and (n_sorted(hcustom) > 0) != (n_sorted(g.iter) > 0):
+        o.refute(f, rcall, f"custom cells over {src(g.iter)[:60]} vs header {src(hcustom)[:40]}",
+                 f"header custom columns are `{src(hcustom)[:60]}` but the row's custom cells iterate `{src(g.iter)[:60]}`: one side is re-ordered, "
+                 f"so cells are written under the wrong custom header")
+        return
     if not (same(hcustom, g.iter) or (hd is not None and rd is not None and same(hd, rd))):
         o.refute(f, rcall, f"custom cells over {src(g.iter)[:60]}", f"header custom columns come from `{src(hcustom)[:60]}` but the row's custom "
                                                                      f"cells iterate `{src(g.iter)[:60]}`: cells and headers can disagree")
@@ -432,11 +517,15 @@ def _custom_columns(ctx, o, F, f, fx, hcall, rcall, hcustom, rcustom, rfor, rowv
             elif isinstance(n, ast.Call) and isinstance(n.func, ast.Attribute) and n.func.attr in ('append', 'setdefault', 'add') \
                     and isinstance(n.func.value, ast.Name) and n.func.value.id == d.id:
                 stores.append(n)
-        if len(stores) != 1 or not isinstance(stores[0], ast.Assign) or not isinstance(stores[0].targets[0].slice, ast.Name):
+        list_acc = False
+        if len(stores) == 1 and isinstance(stores[0], ast.Call) and stores[0].func.attr == 'append' and len(stores[0].args) == 1 \
+                and _key_name(stores[0].args[0]) is not None:
+            list_acc = True       # an ordered list of names: `if k not in L: L.append(k)`
+        elif len(stores) != 1 or not isinstance(stores[0], ast.Assign) or not isinstance(stores[0].targets[0].slice, ast.Name):
             o.undecided(f, hcall, d, f"custom column accumulator `{d.id}` is not filled by exactly one `{d.id}[k] = ..` store")
             return
         stn = stores[0]
-        k = stn.targets[0].slice.id
+        k = _key_name(stn.args[0]) if list_acc else stn.targets[0].slice.id
         fors = fx.enclosing_fors(stn)
         if len(fors) != 2:
             o.undecided(f, stn, stn, "custom column discovery is not a two level loop (tasks, attribute names)")
@@ -444,6 +533,18 @@ def _custom_columns(ctx, o, F, f, fx, hcall, rcall, hcustom, rcustom, rfor, rowv
         outer, inner = fors
         outer_t, outer_it, inner_t, inner_it, inner_node = outer.target, fx.x(outer.iter), inner.target, fx.x(inner.iter), inner
         conds = [c for c in fx.conds(stn)]
+        if list_acc:
+            # the names must be unique: the append has to be guarded by `k not in L` (a dict accumulator gets that for free)
+            def dedupe(t, pol):
+                return isinstance(t, ast.Compare) and len(t.ops) == 1 \
+                    and ((isinstance(t.ops[0], ast.NotIn) and pol) or (isinstance(t.ops[0], ast.In) and not pol)) \
+                    and _key_name(t.left) == k and isinstance(t.comparators[0], ast.Name) and t.comparators[0].id == d.id
+            if not any(dedupe(t, pol) for t, pol in conds):
+                o.refute(f, stn, f"{src(stn)[:60]} without `{k} not in {d.id}`",
+                         f"custom column names are appended to the list `{d.id}` for every task that carries them, without a `{k} not in {d.id}` test: "
+                         f"an attribute carried by several tasks gets several columns")
+                return
+            conds = [(t, pol) for t, pol in conds if not dedupe(t, pol)]
     if not same(outer_it, fx.x(rfor.iter)):
         o.refute(f, stn, f"discovery over {src(outer_it)[:60]}", f"custom columns are discovered over `{src(outer_it)[:60]}` but rows are written "
                                                                 f"for `{src(fx.x(rfor.iter))[:60]}`: attributes of some tasks get no column")
@@ -2074,6 +2175,7 @@ def ob_order(ctx, o, F):
                     and isinstance(n.value.op, ast.Add) and isinstance(n.value.right, ast.Name) and n.value.right.id == n.targets[0].id \
                     and isinstance(n.value.left, ast.List):
                 o.refute(f, n, src(n)[:80], f"`{src(n)[:60]}` prepends: order is reversed")
+    _pred_rebuild(ctx, o)
     # ---- the sequences handed from stage to stage
     wr, rd = prog.func(CSV + '.write_csv'), prog.func(CSV + '.read_csv')
     t2r, r2w = prog.func(RAW + '.tasks_to_raws'), prog.func(RAW + '.raws_to_wbs')
@@ -2143,6 +2245,89 @@ def ob_order(ctx, o, F):
             o.undecided(rd, rets[0], rv, "read_csv does not return raws_to_wbs(<accumulated rows>)")
     else:
         o.undecided(rd, rd.node, 'read_csv return', "read_csv has no single return")
+
+
+def _mentions_pred_ids(e) -> bool:
+    return any(isinstance(n, ast.Attribute) and n.attr == 'predecessor_ids' for n in ast.walk(e))
+
+
+def _strip_seq(e):
+    while isinstance(e, ast.Call) and isinstance(e.func, ast.Name) and e.func.id in ('list', 'tuple', 'iter') and len(e.args) == 1 and not e.keywords:
+        e = e.args[0]
+    return e
+
+
+def _pred_rebuild(ctx, o):
+    """where raws_to_wbs (or a private helper of io/raw.py) fills `<task>.predecessors`: the elements must be produced by
+    walking `<raw>.predecessor_ids` front to back.  Refuted: the elements are produced by walking ANOTHER sequence that is
+    merely filtered by membership in the listed ids (the list then comes back in that sequence's order, duplicates merged)."""
+    prog = ctx.prog
+    fns = [fn for q, fn in prog.funcs.items() if fn.kind == 'function' and fn.module.name == RAW and fn.name != 'tasks_to_raws']
+    found = False
+
+    def is_preds(e):
+        return isinstance(e, ast.Attribute) and e.attr == 'predecessors'
+
+    def judge_comp(fn, node, comp, raw=None):
+        """comp: expanded value assigned to / extended onto .predecessors (raw: as written, for messages)"""
+        c = _strip_seq(comp)
+        if not (isinstance(c, (ast.ListComp, ast.GeneratorExp)) and c.generators):
+            o.undecided(fn, node, node, "value stored into .predecessors is not a comprehension over the listed predecessor ids")
+            return
+        g = c.generators[0]
+        it = _strip_seq(g.iter)
+        if isinstance(it, ast.Attribute) and it.attr == 'predecessor_ids':
+            o.site(fn, node, f"predecessors rebuilt in the listed order: {src(c)[:60]}")
+            return
+        member = [t for gg in c.generators for t in gg.ifs for n in ast.walk(t)
+                  if isinstance(n, ast.Compare) and any(isinstance(op, ast.In) for op in n.ops) and any(_mentions_pred_ids(x) for x in n.comparators)]
+        if not _mentions_pred_ids(it) and member:
+            rw = _strip_seq(raw) if raw is not None else None
+            if isinstance(rw, (ast.ListComp, ast.GeneratorExp)) and rw.generators:
+                it = rw.generators[0].iter
+            o.refute(fn, node, f"predecessors from {src(it)[:40]} filtered by {src(member[0])[:50]}",
+                     f"predecessors are collected by walking `{src(it)[:40]}` and keeping the elements with `{src(member[0])[:50]}`: the list comes back in the "
+                     f"order of `{src(it)[:40]}` (duplicates merged), not in the order listed in predecessor_ids (expected one lookup per listed id, in order)")
+            return
+        o.undecided(fn, node, node, "order in which .predecessors is rebuilt is not recognised")
+
+    for fn in fns:
+        fx = fx_of(ctx, fn)
+        for n in walk_no_nested(fn.node):
+            if isinstance(n, ast.Call) and isinstance(n.func, ast.Attribute) and n.func.attr in ('append', 'extend', 'insert') and is_preds(n.func.value) \
+                    and n.args:
+                found = True
+                if n.func.attr == 'insert':
+                    continue        # reported by the generic scan
+                if n.func.attr == 'extend':
+                    judge_comp(fn, n, fx.x(n.args[0]), n.args[0])
+                    continue
+                fors = fx.enclosing_fors(n)
+                if not fors:
+                    o.undecided(fn, n, n, ".predecessors.append(..) outside a loop")
+                    continue
+                lp = fors[-1]
+                keep = [x.id for x in ast.walk(lp.target) if isinstance(x, ast.Name)]
+                it = _strip_seq(fx.x(lp.iter))
+                arg = fx.x(n.args[0], keep=keep)
+                if isinstance(it, ast.Attribute) and it.attr == 'predecessor_ids' and any(isinstance(x, ast.Name) and x.id in keep for x in ast.walk(arg)):
+                    o.site(fn, n, f"predecessors appended while walking {src(it)[:40]} in order")
+                    continue
+                conds = fx.conds(n, keep=keep)
+                member = [t for t, pol in conds if pol for m in ast.walk(t) if isinstance(m, ast.Compare)
+                          and any(isinstance(op, ast.In) for op in m.ops) and any(_mentions_pred_ids(x) for x in m.comparators)]
+                if not _mentions_pred_ids(it) and member and any(isinstance(x, ast.Name) and x.id in keep for x in ast.walk(arg)):
+                    it = lp.iter
+                    o.refute(fn, n, f"predecessors from {src(it)[:40]} filtered by {src(member[0])[:50]}",
+                             f"predecessors are appended while walking `{src(it)[:40]}` and testing `{src(member[0])[:50]}`: the list comes back in the order "
+                             f"of `{src(it)[:40]}`, not in the order listed in predecessor_ids")
+                    continue
+                o.undecided(fn, n, n, "order in which .predecessors is rebuilt is not recognised")
+            elif isinstance(n, (ast.Assign, ast.AugAssign)) and any(is_preds(t) for t in (n.targets if isinstance(n, ast.Assign) else [n.target])):
+                found = True
+                judge_comp(fn, n, fx.x(n.value), n.value)
+    if not found:
+        o.undecided(prog.func(RAW + '.raws_to_wbs'), None, 'predecessor rebuild', "no store into `.predecessors` found in io/raw.py: how predecessor lists are rebuilt is not recognised")
 
 
 def _returns_accumulator(ctx, fn) -> bool:
